@@ -39,6 +39,26 @@ type c02Case struct {
 	TargetSz  int
 	Accept    int // the builder's window has accepted this many built blocks (prefix)
 	VerifyCfg fixture.ExecConfig
+	// Bulk: this many extra simple txs (generated from their index) arrive before the first
+	// build: more than one stream batch (256) and the builder's asynchronous PrepareStream
+	Bulk int `json:",omitempty"`
+}
+
+// bulkTx is the i-th extra tx: one action touching one or two universe keys.
+func bulkTx(i int, expiry int64) fixture.TxSpec {
+	k1 := universe[i%10]
+	k2 := universe[(i/10)%10]
+	ops := []fixture.Op{{Kind: fixture.OpGet, Key: k1}, {Kind: fixture.OpPut, Key: k1, Val: []byte{byte(i), byte(i >> 8)}}}
+	keys := []fixture.KeyDecl{{Key: k1, Perm: 7}}
+	if i%3 == 0 {
+		keys = append(keys, fixture.KeyDecl{Key: k2, Perm: 1})
+		ops = append(ops, fixture.Op{Kind: fixture.OpGet, Key: k2})
+	}
+	if i%17 == 0 {
+		ops = append(ops, fixture.Op{Kind: fixture.OpFail})
+	}
+	return fixture.TxSpec{Sponsor: i % 3, AuthStart: -1, AuthEnd: -1, Expiry: expiry, MaxFee: uint64(1000 + i),
+		Actions: []fixture.ActSpec{{Start: -1, End: -1, Nonce: uint64(1<<30 + i), Compute: 1, Keys: keys, Ops: ops}}}
 }
 
 func c02Gen(rt *rapid.T) c02Case {
@@ -71,6 +91,13 @@ func c02Gen(rt *rapid.T) c02Case {
 	c.VerifyCfg = fixture.ExecConfig{Cores: rapid.SampledFrom([]int{1, 4}).Draw(rt, "vcores"), Fetch: rapid.SampledFrom([]int{1, 4}).Draw(rt, "vfetch")}
 	nb := rapid.IntRange(1, 3).Draw(rt, "nbuilds")
 	c.Accept = rapid.IntRange(0, nb-1).Draw(rt, "accept")
+	if rapid.IntRange(0, 24).Draw(rt, "bulk") == 0 {
+		c.Bulk = rapid.SampledFrom([]int{130, 257, 300, 520, 700}).Draw(rt, "bulkN")
+		if rapid.Bool().Draw(rt, "bulkTight") {
+			// a compute limit that fills up in the middle of the second batch
+			c.Rules.MaxBlockUnits[1] = uint64(c.Bulk) * 2 / 3 * (1 + c.Rules.BaseCompute)
+		}
+	}
 	total := 0
 	for b := 0; b < nb; b++ {
 		n := rapid.IntRange(0, 10).Draw(rt, fmt.Sprintf("n%d", b))
@@ -157,6 +184,16 @@ func c02Run(c c02Case, st *vstat.Stats) error {
 			txs = append(txs, tx)
 			added[tx.GetID()] = spec
 			labels["kind:"+t.Kind] = true
+		}
+		if bi == 0 && c.Bulk > 0 {
+			labels["bulk-mempool"] = true
+			for i := 0; i < c.Bulk; i++ {
+				spec := bulkTx(i, nowBase+30_000)
+				tx := spec.Build()
+				all = append(all, tx)
+				allSpec = append(allSpec, spec)
+				txs = append(txs, tx)
+			}
 		}
 		l.mp.Add(ctx, txs)
 		inPool := map[ids.ID]fixture.TxSpec{}
